@@ -101,6 +101,24 @@ CHECKS.update({
          "DESIGN.md §3 C20"),
 })
 
+CHECKS.update({
+ "C11": ("model_checking",
+         "explicit-state breadth-first search over registration histories (state = shortest history, re-executed on a fresh Mux; dedup on reference registry + canonical implementation fingerprint), probes x all rand.Intn picks after every transition",
+         "Every history over {RegisterService(local), RegisterConn x3 back-ends, DropConn x3, back-end changes its descriptors and re-registers (two directions), DropConn(unknown)} up to the depth bound is applied to the real Mux with scripted back-ends; after every transition each method is probed over its rule route, implicit route and gRPC under every handler pick: the answering back-end must be a live owner, a method with live owners is never unserved, a method with none is NotFound/Unimplemented, operation results match the reference registry, nothing panics.",
+         "Back-ends are never-dialled grpc.ClientConns whose interceptors answer reflection and data calls (validated against real grpc-go servers in the conformance pass); state merging trusts VerifFingerprint.",
+         "DESIGN.md §3 C11"),
+ "C12": ("model_checking",
+         "stateless preemption-bounded exploration (iterated bounds) of all interleavings of writer/reader threads on the real Mux under a controlled scheduler injected by go build -overlay; porcupine linearizability + snapshot-immutability monitor per schedule; separate free-running -race pass",
+         "Scenarios of 3-4 threads (RegisterService, failing registration, RegisterConn, DropConn vs readers issuing 2-3 requests over three routes) are explored over every interleaving of the real synchronisation operations up to the preemption bound. Each schedule's call/return history must be linearizable against the registry specification (porcupine), every snapshot ever published must keep its fingerprint, a failing registration must leave the snapshot unchanged, no panic/deadlock. The same bodies then run free under the race detector.",
+         "Unsynchronised accesses between scheduling points are not interleaved (covered by the immutability monitor and the -race pass); pools are not scheduling points here.",
+         "DESIGN.md §3 C12"),
+ "C13": ("model_checking",
+         "stateless deviation-bounded exploration (preemptions + 'pool emptied' environment answers, iterated bounds) of concurrent request pairs/triples on the real Mux under the controlled scheduler; differential against each request's solo run; separate free-running -race pass",
+         "Pairs (thorough: all 36 pairs + triples) of requests of 8 kinds chosen to collide on bytesPool, bufPool and the gzip pools run concurrently on one Mux; scheduling points at every pool Get/Put, WaitGroup op, body Read, response Write and handler step. In every explored schedule each response and each handler-seen message must equal the request's solo run and messages retained by handlers must be unchanged at the end; no panic, no deadlock. The same bodies then run free under the race detector.",
+         "Races inside grpc-go/net/http are outside the scheduler; proxied streams are covered by C10.",
+         "DESIGN.md §3 C13"),
+})
+
 NOT_YET = {}
 
 def main():
